@@ -82,6 +82,15 @@ def tld_domains(tier, rng, mdl):
         n = rng.randrange(2, 12)
         lab = bytes(rng.choice(LDH[:26]) for _ in range(n))
         out.append(b"a." + lab)
+    # meaningful second-level labels: a class must depend on the last label only, not on what the name "means"
+    words = [b"home", b"local", b"lan", b"corp", b"mail", b"www", b"internal", b"intranet", b"private", b"ipv4only", b"resolver", b"service",
+             b"in-addr", b"ip6", b"e164", b"uri", b"urn", b"iris", b"as112", b"6tisch", b"eap-noob", b"10.in-addr", b"254.169.in-addr", b"d.f.ip6",
+             b"example", b"test", b"invalid", b"localhost", b"onion", b"alt", b"gov", b"edu", b"co", b"ac", b"nic", b"root-servers", b"gtld-servers"]
+    wt = [b"arpa", b"com", b"net", b"org", b"uk", b"int", b"museum", b"aero", b"info", b"xn--p1ai", b"zzzz"]
+    for w in words:
+        for t in wt:
+            out.append(w + b"." + t)
+            out.append(b"x." + w + b"." + t)
     # single-label (non-FQDN) forms
     for n in rng.sample(names, 200 if tier == "quick" else len(names)):
         out.append(n)
@@ -229,6 +238,10 @@ def special_domains(tier, rng):
             a, b = s.split(b".")
             for ext in (b"a", b"ab", b"s", b"abc"):
                 neigh.update([a + ext + b"." + b, a + b"." + b + ext, ext + a + b"." + b, a + b"." + ext + b])
+    for w in (b"home", b"ipv4only", b"resolver", b"service", b"10.in-addr", b"ip6", b"local", b"lan", b"corp", b"internal", b"alt", b"mail"):
+        for t in (b"arpa", b"com", b"net", b"org", b"local", b"alt", b"home", b"lan", b"corp", b"internal"):
+            neigh.add(w + b"." + t)
+            neigh.add(t)
     neigh.update([b"example.co", b"example.comm", b"example.co.m", b"exampl.ecom", b"examplecom", b"example.edu", b"tests",
                   b"foo.tests", b"exampleA", b"xexample.com", b"example.example", b"test.example.com", b"example.com.test",
                   b"com.example", b"example.test", b"example.invalid", b"example.onion", b"example.localhost",
